@@ -120,6 +120,7 @@ class Unit:
         self.dropped = []          # dropped items (file, line, what, why)
         self.local_mods = set(m[0].split('::')[0] for m in cfg['modules'] if m[0]) | set(cfg.get('prelude_modules', {}).keys())
         self.mod_opts = {}         # options of the module being processed (see `module_entry`)
+        self.types = {}
         self.downgraded = set()    # keys emitted `assumed` here although their sidecar block says `verified` (E9)
         # cfg['strip_clauses'] = {function key: [clause names] | '*'}: clauses that do not hold in this unit's world are NOT emitted (the
         # function stays verified against the rest; callers learn nothing from a stripped clause).  '*' removes the whole block.
@@ -260,6 +261,9 @@ class Unit:
                 V.append('} // verus!\npub mod %s {\n%s\nverus! {\n%s\n} // verus!\n%s\n} // mod %s\nverus! {' % (it.name, self.std_use, v, p, it.name))
                 continue
             if k in ('struct', 'enum'):
+                # the full text of a type definition INCLUDING its attributes (derives, serde / zeroize / getter field attributes, which rules
+                # E1/E2 drop or replace by their documented expansion) is recorded so that a changed attribute is noticed (driver: type lock)
+                self.types[repo_rel + ' :: ' + (modpath + '::' if modpath else '') + str(it.name)] = norm_sha(' '.join(it.attrs) + ' ' + it.text)
                 v, p = self.process_type(it, repo_rel, modpath)
                 V.append(v)
                 P.append(p)
@@ -1541,7 +1545,7 @@ def build_unit(cfg):
     u = Unit(cfg, contracts)
     text = u.emit()
     fns, clauses = Unit.line_map(text)
-    meta = dict(unit=cfg['name'], rules=u.rules, functions=u.functions, dropped=u.dropped,
+    meta = dict(unit=cfg['name'], rules=u.rules, functions=u.functions, dropped=u.dropped, types=u.types,
                 fn_lines=fns, clause_lines=clauses,
                 contracts={c.key: dict(serves=c.serves, mode=c.mode, hash=sha(c.text_hash_material()),
                                        clauses=[(cl.kind, cl.name) for cl in c.requires + c.ensures]) for c in contracts if c.used})
